@@ -79,6 +79,14 @@ def replay(case):
             if np.max(np.abs(got - want)) > 1e-7 * max(1.0, float(np.max(np.abs(want)))):
                 out.append(('%s:value' % task, 'matricised result differs from (y pinv(Psi))^T: max abs error %.3e (d=%d m=%d thr=%g, rank %d of %r)' % (
                     np.max(np.abs(got - want)), cfg['d'], m, thr, len(nz), P.shape)))
+            elif not np.iscomplexobj(y):
+                # the same (integer-valued) data stored with an integer dtype
+                xi2 = reg.mandy_cm(x.astype(np.int64), y.astype(np.int64), phi, threshold=thr) if task == 'mandy_cm' else \
+                    reg.mandy_fm(x.astype(np.int64), y.astype(np.int64), phi, threshold=thr, add_one=cfg['addone'])
+                g2 = contract(xi2.cores).reshape(-1)
+                if metadata_problem(xi2) or g2.size != want.size or \
+                        np.max(np.abs(g2.reshape(want.shape) - want)) > 1e-7 * max(1.0, float(np.max(np.abs(want)))):
+                    out.append(('%s:value:int-dtype' % task, 'integer-typed data give a different coefficient tensor (d=%d m=%d thr=%g)' % (cfg['d'], m, thr)))
         elif task == 'mandy_kb':
             basis = [[make_fn(f) for f in mode] for mode in cfg['basis']]
             z = reg.mandy_kb(x, y, basis)
